@@ -213,7 +213,7 @@ class DocumentedCSRRegion:
         for field in fields:
             if field.offset > end:
                 continue
-            if field.offset + field.size < start:
+            if field.offset + field.size <= start:
                 continue
             new_field = DocumentedCSRField(field)
 
